@@ -101,6 +101,10 @@ func runC20(r *Run) {
 		&EdgeGuard{Name: "OnSaleFlag", Classify: func(_ *Program, _ *ssa.Function, cond ssa.Value, _ *ssa.If) int {
 			return boolCond(cond, func(v ssa.Value) bool { return dom("OnSaleFlag")(v) })
 		}},
+		boolCallG("IsExpired(State.Version())", true, []string{"(*data/ons.Domain).IsExpired"}, nil, func(v ssa.Value) bool {
+			c, ok := v.(*ssa.Call)
+			return ok && (calleeName(c) == "(storage.State).Version" || calleeName(c) == "(*storage.State).Version")
+		}),
 		cmpG("version > ExpireHeight", func(v ssa.Value) bool {
 			c, ok := v.(*ssa.Call)
 			return ok && (calleeName(c) == "(storage.State).Version" || calleeName(c) == "(*storage.State).Version")
@@ -164,7 +168,56 @@ func runC20(r *Run) {
 			"debit and credit use the same coin built from msg.Amount", "the credited amount differs from the debited one", p.ipos(c))
 		r.guardOb("C20.send", sd, "credit", callsTo(fnBalAdd), errCallG("debit succeeded", []string{fnBalMinus}), "the beneficiary is credited although the sender was not debited")
 	}
-	r.Floor("C20.", 28)
+	// sub-domain scans: the handlers' callbacks never stop the walk, and the scanned key range is exactly the parent's prefix
+	for _, e := range []*ssa.Function{ren, upd} {
+		for _, c := range allCalls(e, "(*data/ons.DomainStore).IterateSubDomain") {
+			cl := closureOf(c.Call.Args[2])
+			r.Check(cl != nil && callbackNeverStops(cl), "C20.subdomains", fname(e), "sub-domain callback never stops the walk",
+				"every sub-domain of the name is visited", "the walk over the sub-domains can stop early: later sub-domains keep their old expiry / activation", p.ipos(c))
+		}
+	}
+	das := p.MustFn(fnDomDelSubs)
+	for _, c := range allCalls(das, "(*data/ons.DomainStore).IterateSubDomain") {
+		cl := closureOf(c.Call.Args[2])
+		r.Check(cl != nil && callbackNeverStops(cl), "C20.subdomains", fname(das), "deletion callback never stops the walk",
+			"every sub-domain is deleted", "DeleteAllSubdomains can stop early and leave sub-domains behind under the new owner", p.ipos(c))
+	}
+	isd := p.MustFn("(*data/ons.DomainStore).IterateSubDomain")
+	if ir := firstCallIn(isd, "(*storage.State).IterateRange"); ir != nil {
+		start, end := ir.Call.Args[1], ir.Call.Args[2]
+		okRange := false
+		if rc, ok := end.(*ssa.Call); ok && calleeName(rc) == "storage.Rangefix" {
+			// end = Rangefix(string(start)): the argument is the start key itself
+			okRange = derivesFrom(rc.Call.Args[0], func(y ssa.Value) bool { return y == start }) ||
+				samePath(unwrapConv(rc.Call.Args[0]), start)
+		}
+		startOK := derivesFrom(start, func(y ssa.Value) bool {
+			c, ok := y.(*ssa.BinOp)
+			if !ok || c.Op != token.ADD {
+				return false
+			}
+			k, isC := c.X.(*ssa.Const)
+			return isC && k.Value != nil && strings.Contains(k.Value.String(), ".") && derivesFrom(c.Y, func(z ssa.Value) bool { return z == ssa.Value(isd.Params[1]) })
+		})
+		r.Check(okRange && startOK, "C20.subdomains", fname(isd), "range = [prefix + key(\".\"+parent), Rangefix(same key))",
+			"the scanned range is exactly the keys below \".parent\"", "the sub-domain range does not end at the range-fix of its own start key (names that merely end with the parent's text are swept in)", p.ipos(ir))
+	} else {
+		r.Viol("C20.subdomains", fname(isd), "range scan", "IterateSubDomain no longer uses State.IterateRange", p.pos(isd.Pos()), nil)
+	}
+	r.Floor("C20.", 30)
+}
+
+// callbackNeverStops: every return of the iteration callback is the constant false.
+func callbackNeverStops(cl *ssa.Function) bool {
+	for _, ret := range returnsOf(cl) {
+		if len(ret.Results) != 1 {
+			return false
+		}
+		if k, isC := boolConst(ret.Results[0]); !isC || k {
+			return false
+		}
+	}
+	return true
 }
 
 // checkExpiryFn: the helper rejects a payment below the base, and divides (payment - base) / perBlock with big.Int.Div.
